@@ -31,6 +31,10 @@ import (
 
 //go:norace
 func (c *Conn) newToWriteBuf(buf []byte) {
+	if len(buf) == 0 {
+		// an empty item would never be consumed by flush.
+		return
+	}
 	c.left += len(buf)
 
 	allocator := c.p.g.BodyAllocator
